@@ -76,7 +76,11 @@ def run(ctx):
         valid.append(("pdu_unpack", lambda b: _pdu.PDU.unpack(b), rpcfmt.pdu, raw))
         if ru.startswith("ok "):
             q = _pdu.PDU.unpack(raw)
-            again = rpcfmt.finalize(q)
+            try:
+                again = rpcfmt.finalize(q)
+            except Exception as exc:  # noqa
+                ctx.violation("a decoded PDU cannot be re-encoded", {"pdu": rpcfmt.pdu(p)[:300], "wire": hx(raw)[:200]}, canon_exc(exc), "the same bytes")
+                continue
             if again != raw:
                 ctx.violation("decode → re-encode changes the bytes", {"pdu": rpcfmt.pdu(p)[:300]}, hx(again)[:160], hx(raw)[:160])
             if rpcfmt.body(q) != rpcfmt.body(p) or rpcfmt.trailer(q.sec_trailer) != rpcfmt.trailer(p.sec_trailer):
